@@ -19,6 +19,7 @@ CFG = """CONSTANTS N = {N}
  RefreshStore = {refresh}
  RollForward = {rollfwd}
  SetPbViaTemp = {viatemp}
+ FreshBars = {freshbars}
  MaxAbs = 5000
  Prefix = "{prefix}"
  DrvX <- {drvx}
@@ -30,6 +31,7 @@ INVARIANT ReplayIsProgram
 INVARIANT ForwardValuesStable
 INVARIANT AdjointCorrect
 INVARIANT DriverCorrect
+INVARIANT ResultsStable
 INVARIANT EmitState
 PROPERTY RecordOnce
 CONSTRAINT Small
@@ -38,11 +40,11 @@ CHECK_DEADLOCK FALSE
 
 
 def cfg(N=2, P=1, maxinstr=3, maxhist=2, points="PtsP1small", seeds="SeedsB", ops="OpsCore", refresh=True,
-        rollfwd=True, viatemp=True, drvx="XOne", drvv="VOne", drvw="WOne", emit=True, prefix="plain", NI=1):
+        rollfwd=True, viatemp=True, drvx="XOne", drvv="VOne", drvw="WOne", emit=True, prefix="plain", NI=1, freshbars=True):
     b = lambda x: "TRUE" if x else "FALSE"
     return CFG.format(N=N, P=P, NI=NI, maxinstr=maxinstr, maxhist=maxhist, points=points, seeds=seeds, ops=ops,
                       refresh=b(refresh), rollfwd=b(rollfwd), viatemp=b(viatemp), prefix=prefix, drvx=drvx, drvv=drvv, drvw=drvw,
-                      emit=b(emit))
+                      emit=b(emit), freshbars=b(freshbars))
 
 
 class Mismatch(Exception):
